@@ -4,7 +4,7 @@
 EXTENDS Glob
 CONSTANTS PLen, SLen
 PatAlpha == {"a", "b", "/", ".", "*", "?", "\\", "+"}
-PathAlpha == {"a", "b", ".", "/"}
+PathAlpha == {"a", "b", ".", "/", "\\"}
 RECURSIVE Strs(_, _)
 Strs(A, n) == IF n = 0 THEN {""} ELSE LET S == Strs(A, n - 1) IN S \cup { s \o c : s \in { x \in S : Len(x) = n - 1 }, c \in A }
 VARIABLES p, s
